@@ -136,6 +136,37 @@ CLAIMS = {
   "params truncated and tsr cleared; the path-only shortcut only for a root whose single child is '/'.",
   "NOT decided: label-by-label equality of hostname parameters for all hosts (walk-loop behaviour), choice among several hostname routes.",
   "DESIGN.md section 5 C09"),
+ "C02": (
+  "path counting (path-set dataflow) over the tree mutators, paired-effect check in truncate, guard-set on the exact-pattern lookups, constructor discipline and root-selection rules, sentinel tracing of returned errors",
+  "Decides structural necessary conditions of the map model: +1/-1/0 change of the route count on exactly the success paths of insert/remove/update and none on failure paths (a failed call inside a transaction leaves Len "
+  "unchanged); the count follows every drop performed by truncate (the repaired defect); Router.Route, Txn.Route and Iter.Routes accept under one test (found, not trailing-slash adjusted, same pattern) and each reads its own root "
+  "(a transaction's uncommitted one, an iterator's snapshot); Has delegates to Route; commit only after a nil error; nodes are built only by the constructors that derive params/infix sub-node (so Update is seen by all accessors); "
+  "errors returned by insert/update wrap the documented sentinels with %w and Delete maps a miss to ErrRouteNotFound.",
+  "NOT decided: that insert/update/remove/truncate implement map semantics for every history (four split and five merge cases), membership of RouteConflictError.Matched, iterator contents for arbitrary trees.",
+  "DESIGN.md section 5 C02"),
+ "C07": (
+  "constructor-discipline rule over every node allocation and every newNodeFromRef call site, sort-before-derive dominance in newNode, plus the ownership rule (C03.1) and publication rule (C04.1)",
+  "Thin by nature (the property quantifies over histories). Decided: node tables never depend on construction history: nodes are allocated only by the constructor or as empty roots with both child indexes -1 (a truncated root "
+  "equals a fresh one), the only function composing a child list sorts it ascending before deriving first-byte keys and param/catch-all indexes, every other construction passes the four child tables of one and the same node or the "
+  "empty tuple; an aborted transaction leaves no trace (no write reaches published storage, Abort publishes nothing).",
+  "NOT decided: the heart of the property, i.e. that deletes merge nodes back so that all histories ending in the same route set route identically; insertion-order independence of splits. These are statements about tree shapes "
+  "over histories that no sound static argument in reach covers; claimed at level 'other' only for the construction invariants named.",
+  "DESIGN.md section 5 C07"),
+ "C10": (
+  "must-pass-through over the call paths to the tree mutators (dominating nil-error facts), path-set dataflow of (cursor offset, inspected bytes) over one iteration of the validator's loop on the syntax-level CFG, guard-set on its success return",
+  "Decides: the mutators are reachable only through Txn entry points that validated the very pattern (NewRoute on its nil-error branch, parseRoute for Delete), and NewRoute stores the pattern it validated; in the validator no "
+  "byte is stepped over unread on any path (the repaired '*x' defect); every increment of the wildcard counter meets the maxParams comparison before the loop continues; the name-length limit is tested in both wildcard states; "
+  "success is returned only in the default scanner state.",
+  "NOT decided: equality of the accepted language with the documented grammar (hand-written state machine), routability round-trip, crash-freedom on arbitrary bytes. A zero Route built by user code is outside the contract.",
+  "DESIGN.md section 5 C10"),
+ "C16": (
+  "the repository compiler's own escape analysis (go build -gcflags=-m with the toolchain pinned in go.mod) mapped onto a call-graph-derived hot region, plus an SSA scan for allocating constructs and a provisioning check of the pooled buffers",
+  "Decides allocation sites, not counts: in the hot region (blocks of ServeHTTP that can still reach a route chain, and every module function they call) the compiler reports no heap allocation other than boxed string "
+  "constants and the slices.Grow of copyWithResize; no defer in a loop, go statement, map/chan/slice creation, capturing closure, string concatenation/conversion, boxing or allocating helper call occurs there; every append "
+  "extends a pooled context buffer in place and is stored back (a buffer grown once stays grown); insert records parameter count and depth on every success path, commit/txn/clone carry them, allocateContext sizes params and "
+  "tsrParams alike and each pool allocates from its own tree.",
+  "NOT decided: the number of allocations for a given route set/request (capacity versus pushes), sync.Pool behaviour under GC, allocations inside standard-library callees. Trusted: completeness of the compiler's escape diagnostics.",
+  "DESIGN.md section 5 C16"),
 }
 
 NOT_APPLICABLE = {
